@@ -1160,8 +1160,8 @@ fn run_callback_mutation(ops: &[Op]) {
 // ---------------------------------------------------------------- operand_rooting (C02: operands of the table instructions)
 // SetProperty / AppendTable / NthRow take their operands from the value stack and then grow or create a table, which may
 // run the collector.  An operand nothing else refers to -- the string literal being stored, a temporary table -- must
-// survive that.  ops[0] = (kind, n, _): kind % 3 = 0 `repeat n { t.append("...") }`, 1 `repeat n { t[i] = "..." }`,
-// 2 `repeat n { g = nth_row([.. a new table ..], 1) }` on a small heap.  Afterwards every stored value is read back.
+// survive that.  ops[0] = (kind, n, _): kind % 4 = 0 `repeat n { t.append("...") }`, 1 `repeat n { t[i] = "..." }`,
+// 2 `repeat n { g = nth_row(mk(), 1) }`, 3 `repeat n { g = __to_array(mk()) }` (the argument of a native call) on a small heap.  Afterwards every stored value is read back.
 // The unrepaired code stores pointers to freed strings: the scenario runs in a child process under valgrind.
 fn operand_rooting_scenario(ops: &[Op]) {
     let kind = ops[0].0 % 4;
@@ -1207,7 +1207,8 @@ fn run_operand_rooting(ops: &[Op]) {
     if let Some(what) = run_child("operand_rooting", ops) {
         let n = 1000 + (ops[0].1 % 8) * 500;
         let prog = [format!("t = {{}}; repeat {n} {{ append(t, \"<string literal>\") }}"), format!("t = {{}}; repeat {n} i {{ t[i] = \"<string literal>\" }}"),
-                    format!("repeat {n} {{ g = nth_row([\"..\", \"..\", \"..\"], 1) }} on a 64 KiB heap")][(ops[0].0 % 3) as usize].clone();
+                    format!("repeat {n} {{ g = nth_row(mk(), 1) }} on a 64 KiB heap, mk() returning a new table of 12 strings"),
+                    format!("repeat {n} {{ g = __to_array(mk()) }} (a native function called on a temporary) on a 64 KiB heap, mk() returning a new table of 12 strings")][(ops[0].0 % 4) as usize].clone();
         fail("operand_rooting", ops, 0, format!("main {{ {prog} }}: {what}"));
     }
 }
@@ -1330,7 +1331,7 @@ fn main() {
     }
     if unit == "operand_rooting" {
         // each shape spawns a child process
-        for kind in 0..3u8 { for n in [2u64, 4] { dispatch(unit, &[(kind, n, 0)], 0); } }
+        for kind in 0..4u8 { for n in [2u64, 4] { dispatch(unit, &[(kind, n, 0)], 0); } }
         println!("OK table instructions kept their operands alive while tables grew");
         return;
     }
